@@ -207,15 +207,13 @@ def chunk_write(prog, rep, tag):
         pl = op_place(op)
         if pl is None or pl["p"]:
             return None
-        for bi, si, kind, payload in b.defs().get(pl["l"], []):
-            if kind == "assign" and payload["rv"]["k"] == "use":
-                return clamp_of(payload["rv"]["a"][0])
-            if kind == "call" and (payload.decl_s or "").split("::")[-1] == "min" and len(payload.args) == 2:
-                a0, a1 = payload.args
-                f0 = q.is_field_read(b, a0, "SubDeviceGroup", "read_pdi_len")
-                f1 = q.is_field_read(b, a1, "SubDeviceGroup", "read_pdi_len")
-                if f0 != f1:
-                    return pr.of_operand(a1 if f0 else a0)
+        m = q.as_min(b, op)
+        if m is not None:
+            a0, a1 = m
+            f0 = q.is_field_read(b, a0, "SubDeviceGroup", "read_pdi_len")
+            f1 = q.is_field_read(b, a1, "SubDeviceGroup", "read_pdi_len")
+            if f0 != f1:
+                return pr.of_operand(a1 if f0 else a0)
         return None
 
     ok = False
